@@ -52,3 +52,118 @@ package hwmon
 //@     invariant -1 <= rangeindex#2 && rangeindex#2 < len(controller.Fans) + 1
 //@     invariant forall i int, j int :: 0 <= i && i < rangeindex#1 && 0 <= j && j < len(controllers[i].Fans) ==> !hit(controllers, i, j, pat, idx, ch)
 //@     invariant forall j int :: 0 <= j && j <= rangeindex#2 && j < len(controller.Fans) ==> !fanSel(controller.Fans[j].Config.HwMon, idx, ch)
+
+// ---- device discovery (C17): which files a discovered temperature sensor / fan is bound to --------------------
+//@ func containsSubFeature
+//@   params (s, e)
+//@   props C17
+//@   ensures result == (exists i int :: 0 <= i && i < len(s) && s[i].Type == e)
+//@   modifies nothing
+//@   loop 1 "for _, a := range s"
+//@     invariant -1 <= rangeindex && rangeindex < len(s)
+//@     invariant forall k int :: 0 <= k && k <= rangeindex ==> s[k].Type != e
+//@ func getSubFeature
+//@   params (subfeatures, input)
+//@   props C17
+//@   ensures (result == nil) == !(exists i int :: 0 <= i && i < len(subfeatures) && subfeatures[i].Type == input)
+//@   ensures result != nil ==> fresh(result) && exists i int :: 0 <= i && i < len(subfeatures) && subfeatures[i].Type == input && (forall k int :: 0 <= k && k < i ==> subfeatures[k].Type != input) && result.Name == subfeatures[i].Name && result.Type == input && result.Number == subfeatures[i].Number
+//@   modifies nothing
+//@   loop 1 "for _, a := range subfeatures"
+//@     invariant -1 <= rangeindex && rangeindex < len(subfeatures)
+//@     invariant forall k int :: 0 <= k && k <= rangeindex ==> subfeatures[k].Type != input
+
+//@ extern func (c gosensors.Chip).GetFeatures() (fs []gosensors.Feature)
+//@   functional featsOf
+//@   effectfree
+//@   trusted "libsensors (cgo): the feature list is a function of the chip"
+//@ extern func (f gosensors.Feature).GetSubFeatures() (ss []gosensors.SubFeature)
+//@   functional subsOf
+//@   effectfree
+//@   trusted "libsensors (cgo): the sub-feature list is a function of the feature"
+//@ extern func (s gosensors.SubFeature).GetValue() (v float64)
+//@   effectfree
+//@   trusted "libsensors (cgo): reading a value has no effect on fan2go's state; the value is arbitrary"
+
+//@ opaque func getLabel
+//@   params (devicePath, featureName)
+//@   modifies nothing
+//@   trusted "reads <feature>_label; the label text plays no role in binding"
+
+//@ pure firstTempIn(ss []gosensors.SubFeature, m int) bool = 0 <= m && m < len(ss) && ss[m].Type == gosensors.SubFeatureTypeTempInput && (forall q int :: 0 <= q && q < m ==> ss[q].Type != gosensors.SubFeatureTypeTempInput)
+//@ pure tempBound(c gosensors.Chip, j int, in string) bool = 0 <= j && j < len(featsOf(c)) && featsOf(c)[j].Type == gosensors.FeatureTypeTemp && (exists m int :: firstTempIn(subsOf(featsOf(c)[j]), m) && in == pathjoin(c.Path, subsOf(featsOf(c)[j])[m].Name))
+
+//@ func GetTempSensors
+//@   params (chip)
+//@   props C17
+//@   ensures[C17.temp.keys]  forall k int :: k in result ==> 1 <= k && k <= len(result) && result[k] != nil && result[k].Index == k
+//@   ensures[C17.temp.input] forall k int :: k in result ==> exists j int :: tempBound(chip, j, result[k].Input)
+//@   ensures[C17.temp.dense] forall k int :: (k in result) == (1 <= k && k <= len(result))
+//@   modifies nothing
+//@   loop 1 "for j := 0; j < len(features); j++"
+//@     invariant 0 <= j && j <= len(features) && features == featsOf(chip) && fresh(result) && currentOutputIndex == len(result) && currentOutputIndex >= 0
+//@     invariant forall k int :: k in result ==> 1 <= k && k <= currentOutputIndex && result[k] != nil && fresh(result[k]) && result[k].Index == k
+//@     invariant forall k int :: k in result ==> exists jj int :: jj < j && tempBound(chip, jj, result[k].Input)
+//@     invariant forall k int :: (k in result) == (1 <= k && k <= currentOutputIndex)
+
+//@ ghost var scanVal gmap[string]int
+//@ ghost var scanBad gset[string]
+//@ extern func fmt.Sscanf(str string, format string, a []any) (n int, err error)
+//@   requires format == "fan%d" && len(a) == 1 && a[0] is *int && a[0].(*int) != nil
+//@   ensures (err != nil) == (str in scanBad)
+//@   ensures err == nil ==> *a[0].(*int) == scanVal[str]
+//@   modifies *a[0].(*int)
+//@   trusted "fmt.Sscanf with the format fan%d: whether a feature name parses, and to which channel number, is a function of the name"
+
+//@ pure fanBound(c gosensors.Chip, j int, h *configuration.HwMonFanConfig) bool = 0 <= j && j < len(featsOf(c)) && featsOf(c)[j].Type == gosensors.FeatureTypeFan && !(featsOf(c)[j].Name in scanBad) && h.RpmChannel == scanVal[featsOf(c)[j].Name]
+//@ pure fanCfgOK(c gosensors.Chip, h *configuration.HwMonFanConfig) bool = h != nil && h.SysfsPath == c.Path && h.PwmChannel == h.RpmChannel && h.RpmInputPath == pathjoin(h.SysfsPath, "fan" + itoa(h.RpmChannel) + "_input") && h.PwmPath == pathjoin(h.SysfsPath, "pwm" + itoa(h.PwmChannel)) && h.PwmEnablePath == pathjoin(h.SysfsPath, "pwm" + itoa(h.PwmChannel) + "_enable")
+
+//@ func GetFans
+//@   params (chip)
+//@   props C17
+//@   ensures[C17.fans.index]   forall i int :: 0 <= i && i < len(result) ==> result[i].Index == i + 1 && result[i].Config.HwMon != nil && result[i].Config.HwMon.Index == i + 1
+//@   ensures[C17.fans.paths]   forall i int :: 0 <= i && i < len(result) ==> fanCfgOK(chip, result[i].Config.HwMon)
+//@   ensures[C17.fans.channel] forall i int :: 0 <= i && i < len(result) ==> exists j int :: fanBound(chip, j, result[i].Config.HwMon)
+//@   modifies nothing
+//@   loop 1 "for j := 0; j < len(features); j++"
+//@     invariant 0 <= j && j <= len(features) && features == featsOf(chip) && (arrayOf(result) == 0 || arrayOf(result) >= old(W))
+//@     invariant forall i int :: 0 <= i && i < len(result) ==> result[i].Index == i + 1 && result[i].Config.HwMon != nil && fresh(result[i].Config.HwMon) && result[i].Config.HwMon.Index == i + 1
+//@     invariant forall i int :: 0 <= i && i < len(result) ==> fanCfgOK(chip, result[i].Config.HwMon)
+//@     invariant forall i int :: 0 <= i && i < len(result) ==> exists jj int :: jj < j && fanBound(chip, jj, result[i].Config.HwMon)
+
+//@ extern func gosensors.Init()
+//@   effectfree
+//@   trusted "libsensors (cgo) initialisation: no effect on fan2go's state"
+//@ extern func gosensors.Cleanup()
+//@   effectfree
+//@   trusted "libsensors (cgo) clean-up: no effect on fan2go's state"
+//@ extern func gosensors.GetDetectedChips() (cs []gosensors.Chip)
+//@   functional detectedChips
+//@   effectfree
+//@   trusted "libsensors (cgo): the list of detected chips"
+//@ opaque func computeIdentifier
+//@   params (chip)
+//@   modifies nothing
+//@   trusted "display name of a chip (Sprintf with %03x); plays no role in binding unless the platform is empty"
+//@ opaque func getDeviceType
+//@   params (devicePath)
+//@   modifies nothing
+//@   trusted "reads device/type; informational"
+//@ opaque func getDeviceModalias
+//@   params (devicePath)
+//@   modifies nothing
+//@   trusted "reads device/modalias; informational"
+//@ opaque func findPlatform
+//@   params (devicePath)
+//@   modifies nothing
+//@   trusted "regexp.FindString on the device path"
+
+//@ pure fansOf(c gosensors.Chip, fs []fans.HwMonFan) bool = forall i int :: 0 <= i && i < len(fs) ==> fs[i].Index == i + 1 && fs[i].Config.HwMon != nil && fs[i].Config.HwMon.Index == i + 1 && fanCfgOK(c, fs[i].Config.HwMon) && (exists j int :: fanBound(c, j, fs[i].Config.HwMon))
+//@ pure sensorsOf(c gosensors.Chip, m map[int]*sensors.HwmonSensor) bool = forall k int :: k in m ==> 1 <= k && k <= len(m) && m[k] != nil && m[k].Index == k && (exists j int :: tempBound(c, j, m[k].Input))
+
+//@ func GetChips
+//@   props C17
+//@   ensures[C17.chips] forall n int :: 0 <= n && n < len(result) ==> result[n] != nil && (exists i int :: 0 <= i && i < len(detectedChips()) && result[n].Path == detectedChips()[i].Path && fansOf(detectedChips()[i], result[n].Fans) && sensorsOf(detectedChips()[i], result[n].Sensors))
+//@   modifies nothing
+//@   loop 1 "for i := 0; i < len(chips); i++"
+//@     invariant 0 <= i && i <= len(chips) && chips == detectedChips() && (arrayOf(list) == 0 || arrayOf(list) >= old(W))
+//@     invariant forall n int :: 0 <= n && n < len(list) ==> list[n] != nil && fresh(list[n]) && (exists ii int :: 0 <= ii && ii < i && list[n].Path == chips[ii].Path && fansOf(chips[ii], list[n].Fans) && sensorsOf(chips[ii], list[n].Sensors))
